@@ -1,6 +1,7 @@
 package main
 
 import (
+	"sort"
 	"os"
 	"fmt"
 	"go/constant"
@@ -33,7 +34,8 @@ const flatMaxDepth = 4
 // FCtx is one splice context: the chain of call instructions from the root.
 type FCtx struct {
 	Parent *FCtx
-	Call   *ssa.Call // the spliced call instruction (nil for the root)
+	Call   *ssa.Call  // the spliced call instruction (nil for the root and for deferred closures)
+	Defer  *ssa.Defer // the defer statement whose function literal runs here (spliced at the function's exits)
 	Fn     *ssa.Function
 	Depth  int
 }
@@ -170,10 +172,54 @@ func spliceTarget(in ssa.Instruction, ctx *FCtx) *ssa.Function {
 			return nil
 		}
 	}
-	if f.Recover != nil {
+	if f.Recover != nil && mayRecover(f) {
 		return nil // a function that recovers is not a straight splice
 	}
 	return f
+}
+
+// mayRecover: go/ssa gives every function with a defer statement a recover block, reached
+// only if a deferred function calls recover(). The function may recover if one of its
+// deferred calls runs module code that contains a call of the recover builtin.
+func mayRecover(f *ssa.Function) bool {
+	hasRecover := func(g *ssa.Function) bool {
+		found := false
+		var walk func(h *ssa.Function)
+		walk = func(h *ssa.Function) {
+			for _, b := range h.Blocks {
+				for _, in := range b.Instrs {
+					if cc := asCall(in); cc != nil {
+						if bi, ok := cc.Value.(*ssa.Builtin); ok && bi.Name() == "recover" {
+							found = true
+						}
+					}
+				}
+			}
+			for _, an := range h.AnonFuncs {
+				walk(an)
+			}
+		}
+		walk(g)
+		return found
+	}
+	for _, b := range f.Blocks {
+		for _, in := range b.Instrs {
+			d, ok := in.(*ssa.Defer)
+			if !ok {
+				continue
+			}
+			if g := closureFn(d.Call.Value); g != nil {
+				if hasRecover(g) {
+					return true
+				}
+				continue
+			}
+			if g := d.Call.StaticCallee(); g != nil && flatInModule != nil && flatInModule(g) && hasRecover(g) {
+				return true
+			}
+		}
+	}
+	return false
 }
 
 func flatOf(fn *ssa.Function) *Flat { return flatBuild(fn, false) }
@@ -223,10 +269,15 @@ func (fl *Flat) build(ctx *FCtx) (entry *FB, rets []*FB) {
 	type pending struct {
 		seg  *FB
 		call *ssa.Call
+		dfr  *ssa.Defer
 		next *FB
 		f    *ssa.Function
 	}
 	var splices []pending
+	plan := map[*ssa.RunDefers][]*ssa.Defer{}
+	if !fl.raw && ctx.Depth < flatMaxDepth {
+		plan = deferPlan(fn)
+	}
 	for _, b := range fn.Blocks {
 		lo := 0
 		var prev *FB
@@ -237,6 +288,26 @@ func (fl *Flat) build(ctx *FCtx) (entry *FB, rets []*FB) {
 			return s
 		}
 		for i, in := range b.Instrs {
+			if rd, isRD := in.(*ssa.RunDefers); isRD && len(plan[rd]) > 0 {
+				// the function literals deferred on every path to this exit run here, last first
+				for k, d := range plan[rd] {
+					hi := i + 1
+					segLo := lo
+					if k > 0 {
+						segLo = hi // an empty connector between two deferred literals
+					}
+					s := newSeg(segLo, hi)
+					if prev == nil {
+						fl.first[ctx][b] = s
+					} else {
+						splices[len(splices)-1].next = s
+					}
+					splices = append(splices, pending{seg: s, dfr: d, f: closureFn(d.Call.Value)})
+					prev = s
+				}
+				lo = i + 1
+				continue
+			}
 			f := spliceTarget(in, ctx)
 			if f == nil || fl.raw {
 				continue
@@ -272,9 +343,11 @@ func (fl *Flat) build(ctx *FCtx) (entry *FB, rets []*FB) {
 		}
 	}
 	for _, sp := range splices {
-		sub := &FCtx{Parent: ctx, Call: sp.call, Fn: sp.f, Depth: ctx.Depth + 1}
+		sub := &FCtx{Parent: ctx, Call: sp.call, Defer: sp.dfr, Fn: sp.f, Depth: ctx.Depth + 1}
 		fl.Ctxs = append(fl.Ctxs, sub)
-		fl.byCall[sp.call] = append(fl.byCall[sp.call], sub)
+		if sp.call != nil {
+			fl.byCall[sp.call] = append(fl.byCall[sp.call], sub)
+		}
 		fl.byFn[sp.f] = append(fl.byFn[sp.f], sub)
 		fl.cont[sub] = sp.next
 		e, rs := fl.build(sub)
@@ -772,24 +845,38 @@ func (p CPath) stepIn(cur *FCtx, v ssa.Value) (ssa.Value, *FCtx, bool) {
 		return v, cur, false
 	}
 	if al := privateCell(v); al != nil {
-		// last store to the cell on this path before the load (same context)
-		// the value at the latest execution of the load on the path
+		// the value at the latest execution of the load on the path: the last store to the
+		// cell before it. The stores are made by the function that owns the cell; the load
+		// is the owner's too, or that of a function literal it deferred (spliced at its exit).
+		owner := cur
+		if _, viaFree := v.(*ssa.UnOp).X.(*ssa.FreeVar); viaFree {
+			owner = nil
+			for c2 := cur; c2 != nil; c2 = c2.Parent {
+				if c2.Fn == al.Parent() {
+					owner = c2
+					break
+				}
+			}
+			if owner == nil && cur != nil {
+				return v, cur, false
+			}
+		}
 		var last, atLoad ssa.Value
 		for _, s := range p.Segs {
-			if cur != nil && s.Ctx != cur {
+			if cur != nil && s.Ctx != cur && s.Ctx != owner {
 				continue
 			}
 			for _, in := range s.Instrs() {
-				if in == v.(ssa.Instruction) {
+				if in == v.(ssa.Instruction) && (cur == nil || s.Ctx == cur) {
 					atLoad = last
 				}
-				if st, ok := in.(*ssa.Store); ok && st.Addr == ssa.Value(al) {
+				if st, ok := in.(*ssa.Store); ok && st.Addr == ssa.Value(al) && (owner == nil || s.Ctx == owner) {
 					last = st.Val
 				}
 			}
 		}
 		if atLoad != nil {
-			return atLoad, cur, true
+			return atLoad, owner, true
 		}
 	}
 	return v, cur, false
@@ -1326,4 +1413,105 @@ func (c *Ctx) onlySpliced(fn *ssa.Function) bool {
 		})
 	}
 	return calls > 0 && other == 0
+}
+
+
+// deferPlan: for each exit (RunDefers) of fn, the defer statements whose operand is a
+// parameterless function literal of the module and that were executed on every path to
+// that exit, last registered first — the literals' bodies run there. A function in which
+// such a defer reaches an exit on some paths only (a conditional defer) gets no plan: its
+// defers stay where they are written.
+func deferPlan(fn *ssa.Function) map[*ssa.RunDefers][]*ssa.Defer {
+	var ds []*ssa.Defer
+	var rds []*ssa.RunDefers
+	for _, b := range fn.Blocks {
+		for _, in := range b.Instrs {
+			switch x := in.(type) {
+			case *ssa.Defer:
+				mc, ok := x.Call.Value.(*ssa.MakeClosure)
+				if !ok || len(x.Call.Args) != 0 {
+					continue
+				}
+				f, ok := mc.Fn.(*ssa.Function)
+				if !ok || f.Parent() != fn || len(f.Params) != 0 || f.Signature.Results().Len() != 0 || f.Recover != nil {
+					continue
+				}
+				ds = append(ds, x)
+			case *ssa.RunDefers:
+				rds = append(rds, x)
+			}
+		}
+	}
+	out := map[*ssa.RunDefers][]*ssa.Defer{}
+	if len(ds) == 0 {
+		return out
+	}
+	dominates := func(d *ssa.Defer, r *ssa.RunDefers) bool {
+		if d.Block() == r.Block() {
+			return instrIndex(d) < instrIndex(r)
+		}
+		return d.Block().Dominates(r.Block())
+	}
+	reaches := func(d *ssa.Defer, r *ssa.RunDefers) bool {
+		if d.Block() == r.Block() && instrIndex(d) < instrIndex(r) {
+			return true
+		}
+		seen := map[*ssa.BasicBlock]bool{}
+		stack := append([]*ssa.BasicBlock{}, d.Block().Succs...)
+		for len(stack) > 0 {
+			b := stack[len(stack)-1]
+			stack = stack[:len(stack)-1]
+			if seen[b] {
+				continue
+			}
+			seen[b] = true
+			if b == r.Block() {
+				return true
+			}
+			stack = append(stack, b.Succs...)
+		}
+		return false
+	}
+	for _, r := range rds {
+		for _, d := range ds {
+			if dominates(d, r) {
+				out[r] = append(out[r], d)
+			} else if reaches(d, r) {
+				return map[*ssa.RunDefers][]*ssa.Defer{}
+			}
+		}
+		// a defer inside a loop would register more than once
+		for _, d := range out[r] {
+			if reachesItself(d.Block()) {
+				return map[*ssa.RunDefers][]*ssa.Defer{}
+			}
+		}
+		// registration order is dominance order; they run in reverse
+		sort.SliceStable(out[r], func(i, j int) bool {
+			a, b := out[r][i], out[r][j]
+			if a.Block() == b.Block() {
+				return instrIndex(a) > instrIndex(b)
+			}
+			return b.Block().Dominates(a.Block())
+		})
+	}
+	return out
+}
+
+func reachesItself(b *ssa.BasicBlock) bool {
+	seen := map[*ssa.BasicBlock]bool{}
+	stack := append([]*ssa.BasicBlock{}, b.Succs...)
+	for len(stack) > 0 {
+		x := stack[len(stack)-1]
+		stack = stack[:len(stack)-1]
+		if x == b {
+			return true
+		}
+		if seen[x] {
+			continue
+		}
+		seen[x] = true
+		stack = append(stack, x.Succs...)
+	}
+	return false
 }
